@@ -304,7 +304,7 @@ impl Menu {
         for c in 0..N_CONV {
             actions.push(Act::Conv(c));
         }
-        for t in 0..4u8 {
+        for t in 0..5u8 {
             actions.push(Act::Target(t));
         }
         for p in 0..5u8 {
@@ -520,7 +520,9 @@ fn apply_unguarded(m: &Menu, s: &Regs, act: Act) -> Option<Regs> {
                 0 => guarded(|| n.ct.init_from(&s.ns)),
                 1 => guarded(|| n.ct.init_from(&s.nl)),
                 2 => guarded(|| n.ct.init_from(&s.ds)),
-                _ => guarded(|| n.ct = FuzzyHashCompareTarget::from(&s.dl)),
+                3 => guarded(|| n.ct = FuzzyHashCompareTarget::from(&s.dl)),
+                // a copy of a fresh target written over the used one
+                _ => guarded(|| n.ct.clone_from(&FuzzyHashCompareTarget::from(&s.nl))),
             };
             if let Err(p) = res {
                 n.bad = Some(format!("compare target init panicked: {}", p));
@@ -1149,7 +1151,7 @@ pub fn run(ctx: &Ctx) -> Report {
     rep.set("exhaustive_scope", "all action sequences up to the depth bound over the stated menu (depth-bounded, not closed)");
     rep.set(
         "rule",
-        "register file with one object per type (4 plain, 2 dual, compare target, position array); menu: parse 10 texts (valid, run-heavy, capacity, long block hash 2, raw-overflowing by one run / by ordinary characters after a run, invalid) into 6 registers; new_from_internals / _near_raw with 15 and _raw / init_from_internals_raw with 10 argument sets each (in-contract, symbol 64 / 255 / 200, length over capacity, non-zero tail, un-normalised data for normalising types, invalid block size / log); normalize_in_place; 24 conversions between registers with previously used destinations; dual init / expand; compare-target init from 4 sources; position array init / clear; generator results.  Depth-1 sweep of the full menu from 4 base states + BFS to the depth bound.  Sweeps: every checked constructor form of the 6 types with EVERY byte value 0..=255 at three positions (middle of block hash 1, block hash 2, last position of a full block hash 2 / first tail byte of the array forms), from a populated register file; position array init_from over every length 0..=70 and lengths around 128 / 256 / 320 / 512 / 65536 and symbols {64,65,127..129,191,192,254,255} at the first / middle / last position, on arrays that already hold a string: in-contract arguments give an array representing the argument, refused ones leave a valid array.  Out-of-contract constructor calls must panic (counted; the documentation says so) and must never leave an invalid object.",
+        "register file with one object per type (4 plain, 2 dual, compare target, position array); menu: parse 10 texts (valid, run-heavy, capacity, long block hash 2, raw-overflowing by one run / by ordinary characters after a run, invalid) into 6 registers; new_from_internals / _near_raw with 15 and _raw / init_from_internals_raw with 10 argument sets each (in-contract, symbol 64 / 255 / 200, length over capacity, non-zero tail, un-normalised data for normalising types, invalid block size / log); normalize_in_place; 24 conversions between registers with previously used destinations; dual init / expand; compare-target init from 4 sources and `clone_from` of a fresh target; position array init / clear; generator results.  Depth-1 sweep of the full menu from 4 base states + BFS to the depth bound.  Sweeps: every checked constructor form of the 6 types with EVERY byte value 0..=255 at three positions (middle of block hash 1, block hash 2, last position of a full block hash 2 / first tail byte of the array forms), from a populated register file; position array init_from over every length 0..=70 and lengths around 128 / 256 / 320 / 512 / 65536 and symbols {64,65,127..129,191,192,254,255} at the first / middle / last position, on arrays that already hold a string: in-contract arguments give an array representing the argument, refused ones leave a valid array.  Out-of-contract constructor calls must panic (counted; the documentation says so) and must never leave an invalid object.",
     );
     rep
 }
